@@ -27,6 +27,7 @@ type RFaultCase struct {
 	Seg    int   `json:"seg"`
 	Prog   []ROp `json:"prog"`
 	OSFile bool  `json:"osfile,omitempty"` // additionally: real temp file, Close() before each call in turn
+	Sample int   `json:"sample,omitempty"` // >0 (read-fault-large): only this many evenly spread fault positions are tried
 }
 
 func init() {
@@ -36,6 +37,34 @@ func init() {
 		Gen:  genRFaultCase,
 		Run:  runRFaultCase,
 	})
+}
+
+func init() {
+	register(&Scenario{
+		Name: "read-fault-large",
+		Rule: "like read-fault but on segments of 1000-2100 documents (multi-chunk doc values and postings, many stored blocks), where a program performs thousands of storage reads: fault positions are SAMPLED (evenly spread, 3 error kinds, persistent and transient), not enumerated; non-trivial = the segment has >1024 documents and the program crosses a doc-value or postings chunk boundary; distinct = distinct case JSON",
+		Gen:  genRFaultLargeCase,
+		Run:  runRFaultCase,
+	})
+}
+
+func genRFaultLargeCase(t *rapid.T, prop string) *Case {
+	o := WorldOpts{MinBuilds: 1, MaxBuilds: 1, MaxMerges: 1, BigPct: 100, HugePct: 80, Stores: []string{StoreFile}, MoreDV: true, FewTerms: true, FewFields: true}
+	wd := GenWorld(t, o)
+	rc := &RFaultCase{Seg: rapid.IntRange(0, 3).Draw(t, "seg"), Sample: rapid.IntRange(30, 80).Draw(t, "sample")}
+	n := rapid.IntRange(2, 6).Draw(t, "nops")
+	for i := 0; i < n; i++ {
+		op := ROp{Kind: rapid.SampledFrom([]int{ROpDocValues, ROpDocValues, ROpDocValues, ROpPostings, ROpPostings, ROpStored, ROpDict}).Draw(t, "ropkind"),
+			Field: rapid.IntRange(0, 7).Draw(t, "field"), Term: rapid.IntRange(0, 12).Draw(t, "term"), Flags: rapid.IntRange(0, 7).Draw(t, "flags")}
+		if op.Kind == ROpDocValues || op.Kind == ROpStored {
+			k := rapid.IntRange(2, 5).Draw(t, "ndocs")
+			for j := 0; j < k; j++ {
+				op.Docs = append(op.Docs, rapid.SampledFrom([]int{0, 5, 127, 128, 700, 1023, 1024, 1025, 1500, 2047, 2048, 2090}).Draw(t, "doc"))
+			}
+		}
+		rc.Prog = append(rc.Prog, op)
+	}
+	return &Case{World: wd, RFault: rc}
 }
 
 func genROp(t *rapid.T, nest bool) ROp {
@@ -62,7 +91,7 @@ func genROp(t *rapid.T, nest bool) ROp {
 }
 
 func genRFaultCase(t *rapid.T, prop string) *Case {
-	o := WorldOpts{MinBuilds: 1, MaxBuilds: 2, MaxMerges: 1, BigPct: 3, HugePct: 0, MaxTinyDocs: 6, Stores: []string{StoreFile}, MoreDV: true}
+	o := WorldOpts{MinBuilds: 1, MaxBuilds: 2, MaxMerges: 1, BigPct: 0, MaxTinyDocs: 6, Stores: []string{StoreFile}, MoreDV: true}
 	wd := GenWorld(t, o)
 	rc := &RFaultCase{Seg: rapid.IntRange(0, 5).Draw(t, "seg"), OSFile: rapid.IntRange(0, 19).Draw(t, "osfile") == 0}
 	n := rapid.IntRange(3, 12).Draw(t, "nops")
@@ -247,8 +276,17 @@ func runRFaultCase(c *Case, env *Env) *Result {
 		}
 		return true
 	}
-	for j := 0; j <= R; j++ {
+	stride := 1
+	if rc.Sample > 0 && R > rc.Sample {
+		stride = R / rc.Sample
+		res.probe("fault-positions-sampled")
+		res.NonTrivial = len(ws.Docs) > 1024
+	}
+	for j := 0; j <= R; j += stride {
 		for k := 0; k < NumReadFaultKinds; k++ {
+			if stride > 1 && k != j%NumReadFaultKinds {
+				continue // sampled mode: one persistent kind per position
+			}
 			if !try(&ReadFault{From: j, Kind: k}, fmt.Sprintf("storage fails (%s) from read %d of %d on", ReadFaultNames[k], j, R)) {
 				return res
 			}
